@@ -199,8 +199,11 @@ def families(tier='quick', seed=0):
                   ([S('>1'), S('<5')], '>1,<5'), ([('null',), S('a')], 'null,a'), ([('f', 1.5), ('i', 2)], '1.5,2'),
                   ([S('a')], 'a-only'), ([('i', 1)], '1-only')):
         add('list-mixed', nm, single('f', L(*l)))
+    nested3 = [M((K('x'), S('a*'))), M((K('x'), S('*b'))), M((K('y'), ('i', 1)))]
     for l, nm in (([S('a')], 'a-only'), ([S('*a*')], '*a*-only'), ([('i', 1)], '1-only'), ([S('>1'), S('<5')], '>1,<5'),
-                  ([('i', 1), ('i', 2)], '1,2'), ([('b', True), ('b', False)], 'true,false'), ([S('?a')], 're-only')):
+                  ([('i', 1), ('i', 2)], '1,2'), ([('b', True), ('b', False)], 'true,false'), ([S('?a')], 're-only'),
+                  # mapping members, two of them on the same inner field
+                  (nested3, 'nested3'), ([M((K('x'), S('a*'))), M((K('x'), S('*b')))], 'nested2')):
         add('quant-short', 'all:' + nm, {'idents': {'A': M((K('f', 'all'), L(*l)))}, 'cond': ('id', 'A')})
         for n in range(0, len(l) + 2):
             add('quant-short', 'of%d:%s' % (n, nm), {'idents': {'A': M((K('f', ('of', n)), L(*l)))}, 'cond': ('id', 'A')})
@@ -386,7 +389,7 @@ MUST = {'single/"a\'', 'single/i\'a"', 'single/"',
         'quant-short/of2:a-only', 'quant-short/of0:a-only', 'quant-short/all:>1,<5', 'quant-ident/of(seq,2)', 'quant-ident/all(list)',
         'quant-ident/of(list,2)', 'quant-ident/not of(map,1)', 'cast-cond/int(f)>1', 'cast-cond/str(f)==str(g)', 'cast-cond/not flt(f)>=1.5',
         'regex-rewrite/?.*a', 'regex-rewrite/list', 'regex-rewrite/i?.*A', 'modifier/str(f) list', 'modifier/not(f) list', 'list-mixed/1,a',
-        'list-mixed/>1,<5', 'list/ab*,*c,id', 'list/abc*,*c,?q', 'list-all/ab*,*c,id', 'list-of/ab*,*c,id|2'}
+        'list-mixed/>1,<5', 'list/ab*,*c,id', 'list/abc*,*c,?q', 'list-all/ab*,*c,id', 'list-of/ab*,*c,id|2', 'quant-short/all:nested3', 'quant-short/of2:nested3', 'quant-short/of3:nested3'}
 
 
 def thin(tpl, quota, rnd):
